@@ -11,6 +11,7 @@ raises; the run does not get stuck waiting.
 """
 import os
 import errno
+import threading
 import shutil
 
 from .. import probe, probe_core, refmodel, cropkit, fsshim, sched
@@ -216,13 +217,13 @@ def run_schedule(world, chooser):
                 #  the rank before that: each grower sees the rank set for it)
                 rank = 1 if j == 0 else 0
                 os.environ[world.mpi] = str(rank)
-                probe_core.TLS.nonroot = rank != 0
+                threading.current_thread().vf_nonroot = rank != 0
                 if rank != 0:
                     nonroot.append(j)
             try:
                 xyzpy.grow(i, crop=crop, verbosity=0)
             finally:
-                probe_core.TLS.nonroot = False
+                threading.current_thread().vf_nonroot = False
         return f
     nonroot = []
 
